@@ -1737,6 +1737,13 @@ def strip_fresh_write_only_state(modules, baseline_attrs=None, baseline_funcs=No
             return '@' + t.id
         return t.attr if isinstance(t, ast.Attribute) else None
     MUT = {'append', 'extend', 'insert', 'update', 'setdefault', 'add', 'appendleft'}
+    # attribute names of the library objects the package holds (queues, threads, events, locks, deques): a store to one of them is not "new state of the package"
+    # (`q.unfinished_tasks = 0`, `t.daemon = True`)
+    import queue as _q, threading as _th, collections as _co
+    foreign_attrs = set()
+    for o_ in (_q.Queue(), _q.PriorityQueue(), _q.LifoQueue(), _th.Thread(), _th.Event(), _th.Condition(), _co.deque(), _co.OrderedDict()):
+        foreign_attrs.update(a_ for a_ in dir(o_) if not a_.startswith('__'))
+    battrs = set(battrs) | foreign_attrs
     cand = set()
     for m in modules.values():
         for n in ast.walk(m.tree):
@@ -2827,4 +2834,33 @@ def strip_write_only_locals(modules):
             fn.body = rebuild(fn.body) or [ast.Pass()]
             ast.fix_missing_locations(fn)
             log.append(('%s.%s' % (m.name, fn.name), [], 'write-only locals dropped: %s' % ', '.join(sorted(dead))))
+    return log
+
+
+def drop_effect_free_ifs(modules):
+    """`if <pure test>: pass` (nothing but pass in either branch) does nothing: what is left when the statements a branch guarded were dropped as diagnostics or statistics"""
+    log = []
+    for m in modules.values():
+        n = 0
+        for _ in range(3):
+            changed = False
+            for node in ast.walk(m.tree):
+                for fld in ('body', 'orelse', 'finalbody'):
+                    sub = getattr(node, fld, None)
+                    if not (isinstance(sub, list) and sub and all(isinstance(x, ast.stmt) for x in sub)):
+                        continue
+                    keep = []
+                    for st in sub:
+                        if isinstance(st, ast.If) and _pure_expr(st.test) and all(isinstance(x, ast.Pass) for x in st.body + st.orelse):
+                            n += 1
+                            changed = True
+                            continue
+                        keep.append(st)
+                    if len(keep) != len(sub):
+                        setattr(node, fld, keep or ([ast.Pass()] if fld == 'body' else []))
+            if not changed:
+                break
+        if n:
+            ast.fix_missing_locations(m.tree)
+            log.append((m.name, [], '%d empty conditional(s) with an effect-free test dropped' % n))
     return log
